@@ -1,0 +1,30 @@
+//! Read-only accessors for the out-of-tree verification harness (/verif).
+//! Compiled only with `--features verif`; contains no logic of its own.
+
+pub use crate::dfa::verif_hooks::{
+    all_inputs, dfa_id_raw, inp_id_raw, num_subdfas, subdfa, subdfa_by_index,
+};
+pub use crate::regex::verif_hooks::{
+    dot_string_constant, followpos as regex_followpos, lookup as regex_lookup,
+    lookup_by_index as regex_lookup_by_index, pool_len as regex_pool_len, regex_id_raw,
+};
+
+pub fn bash_string_constant(s: &str) -> String {
+    crate::bash::verif_make_string_constant(s)
+}
+
+pub fn fish_string_constant(s: &str) -> String {
+    crate::fish::verif_make_string_constant(s)
+}
+
+pub fn zsh_string_constant(s: &str) -> String {
+    crate::zsh::verif_make_string_constant(s)
+}
+
+pub fn pwsh_string_constant(s: &str) -> String {
+    crate::pwsh::verif_make_string_constant(s)
+}
+
+pub fn dot_escape(s: &str) -> String {
+    crate::parse::verif_dot_escape(s)
+}
